@@ -10,8 +10,9 @@ CONSTANTS
     MaxReq = 4
     MaxOps = 1
     MaxReaps = 1
-    ResumeScripts = {"noop", "close", "panic"}
-    OpenScripts = {"open", "open_panic"}
+    ResumeScripts = {"noop", "close"}
+    OpenScripts = {"open"}
+    Routes = {"unary", "pinit"}
     Toks = {"own", "bad"}
     Lags = {0}
     AadBinds = TRUE
